@@ -1,4 +1,5 @@
 import IpamVerif.System
+import IpamVerif.Facts
 /-!
 # C03 — a restart at any instant loses no assignment and resurrects none
 
@@ -46,5 +47,13 @@ theorem boot_views (s : Sys) (svcs : List Cidr) (ws : List WOut) :
     (boot s svcs ws).1.nodeView = (boot s svcs ws).1.api.nodes ∧ (boot s svcs ws).1.ccView = (boot s svcs ws).1.api.ccs := by
   unfold boot
   exact ⟨rfl, rfl⟩
+
+/-- start-up order (C03): nodes are listed before the allocator is constructed, informers start afterwards;
+inside the constructor ClusterCIDRs are mapped before the service ranges are occupied, before the listed
+nodes are occupied, before the node handlers are registered -/
+theorem startupOrder : Facts.startupOrder = ["Nodes.List", "NewMultiCIDRRangeAllocator", "Start", "Start", "Run"] ∧
+    Facts.constructorOrder = ["listClusterCIDRs", "reconcileBootstrap", "AddEventHandler:clusterCIDRInformer",
+      "filterOutServiceRange", "filterOutServiceRange", "occupyCIDRs", "AddEventHandler:nodeInformer"] := by decide
+
 
 end Ipam.C03
